@@ -15,10 +15,13 @@ import (
 	"os"
 	"os/exec"
 	"path/filepath"
+	"runtime"
 	"sort"
 	"strconv"
 	"strings"
 	"sync"
+
+	gohlslib "github.com/bluenviron/gohlslib/v2"
 
 	"verifharness/internal/rng"
 )
@@ -105,6 +108,7 @@ func main() {
 	// histories of the search-only legs, outside the model (no T leg): injected storage faults (C18
 	// retention and C04 playlist-history oracles), init-file regeneration failures (C04), slow readers (C05)
 	var fhs []history
+	var shs []history // slow-reader leg: run one after the other on a single P
 	if *replay != "" {
 		raw, err := os.ReadFile(*replay)
 		if err != nil {
@@ -119,6 +123,9 @@ func main() {
 		hs = []history{rp.Input}
 		if rp.Input.outsideModel() {
 			hs, fhs = nil, []history{rp.Input}
+		}
+		if rp.Input.Leg == "slow-reader" {
+			fhs, shs = nil, []history{rp.Input}
 		}
 	} else {
 		// corpus first
@@ -188,6 +195,25 @@ func main() {
 			}
 		}
 	}
+	if *replay == "" && (*prop == "" || *prop == "C05") {
+		// Requests that overlap the writer (slow.go): Low-Latency histories, two in three with Directory
+		ns := count / 5
+		for i := 0; i < ns; i++ {
+			for try := 0; try < 40; try++ {
+				r := rng.New(*seed^0x5108EAD, uint64(i*40+try))
+				h := genHistory(r, false)
+				if h.Variant == 3 {
+					h.Disk = r.Bool(2, 3)
+					h.Leg = "slow-reader"
+					shs = append(shs, h)
+					break
+				}
+			}
+		}
+	}
+	for i := range shs {
+		annotate(&shs[i])
+	}
 	for i := range hs {
 		annotate(&hs[i])
 	}
@@ -229,6 +255,27 @@ func main() {
 		}(i)
 	}
 	wg.Wait()
+	if len(shs) > 0 {
+		// one P: a request woken by the writer runs only when the writer's goroutine blocks (slow.go)
+		procs := runtime.GOMAXPROCS(1)
+		hintEntered := make(chan struct{}, 16)
+		gohlslib.VerifSetHook(func(point string) {
+			if point == "wait:preload-hint" {
+				select {
+				case hintEntered <- struct{}{}:
+				default:
+				}
+			}
+		})
+		for i := range shs {
+			dir := filepath.Join(*out, "disk", "s"+strconv.Itoa(i))
+			res := runSlow(&shs[i], dir, hintEntered)
+			os.RemoveAll(dir)
+			fouts = append(fouts, caseOut{h: shs[i], res: res, fails: runOracles(&shs[i], res)})
+		}
+		gohlslib.VerifSetHook(nil)
+		runtime.GOMAXPROCS(procs)
+	}
 	os.RemoveAll(filepath.Join(*out, "disk"))
 
 	{
@@ -400,6 +447,23 @@ func main() {
 	faultWrites := 0
 	for _, co := range fouts {
 		j, _ := json.Marshal(co.h)
+		if co.h.Leg == "slow-reader" {
+			for _, s := range co.res.slow {
+				switch {
+				case s.kind == "download" && s.listedEnd:
+					dist["slow-reader:download-across-writes:"+kindName(s.ukind)]++
+				case s.kind == "download":
+					dist["slow-reader:download-unlisted-before-release"]++
+				case s.kind == "hint" && s.status == 200:
+					dist[fmt.Sprintf("slow-reader:hint-request-resumed-after-%d-rotations", s.rotations)]++
+				}
+			}
+			if co.h.Disk {
+				dist["slow-reader-histories:disk"]++
+			} else {
+				dist["slow-reader-histories:ram"]++
+			}
+		}
 		if co.h.Leg != "" {
 			dist[co.h.Leg+"-histories"]++
 			for _, rc := range co.res.results {
@@ -456,7 +520,8 @@ func main() {
 			"AV1 sequence headers with and without an explicit colour description, boundary aiming (one history in three: random-access units of the leading track exactly at / one tick before / one tick after the tick at which SegmentMinDuration is reached, Low-Latency also at the frozen part duration, segment starts on arbitrary ticks), cross-track skew; distinct by SHA-256 of the history; " +
 			"non-trivial = at least 2 segments published and at least 3 rotations; " +
 			"C18 and C04 only: in addition evaluations/5 single-stream MPEG-TS / fMP4 histories in which each storage NewFile call fails with probability 1/6 (retention oracle of C18 and playlist-history oracle of C04 only, outside the model; counted under storage-fault-histories, not under evaluations); " +
-			"C04 only: in addition evaluations/5 single-stream fMP4 H264 histories with 1-3 windows that open with a lone malformed SPS and continue with IDR units without in-band parameter sets, so that one init-file regeneration fails and that WriteH264 returns an error (playlist-history oracle only, outside the model; counted under init-failure-histories)",
+			"C04 only: in addition evaluations/5 single-stream fMP4 H264 histories with 1-3 windows that open with a lone malformed SPS and continue with IDR units without in-band parameter sets, so that one init-file regeneration fails and that WriteH264 returns an error (playlist-history oracle only, outside the model; counted under init-failure-histories); " +
+			"C05 only: in addition evaluations/5 Low-Latency histories (two in three with Directory) driven on one P with requests that overlap the writer: downloads of listed parts / segments / init files whose ResponseWriter blocks in its first Write until the segment has been completed and 1-3 further parts written, and (RAM storage) requests for the preload-hint URI that wait for the part and resume after two part rotations; required: same bytes as when first fetched while still listed, fragment sequence number = part number (outside the model; counted under slow-reader-histories)",
 		"samples":                       samples,
 		"distribution":                  dist,
 		"oracle_failures":               fails,
